@@ -999,20 +999,23 @@ theorem valid_of_mem_allTuples : ∀ (es t : List Nat), t ∈ allTuples es →
     | succ k => simpa using hv k (by simpa using hk)
 
 /-- one step of `init_from_mdspan` -/
-def initStep (other : Md) (acc : Md) (t : List Nat) : Md :=
+def initStep (other : View) (acc : Md) (t : List Nat) : Md :=
   match other.get? (arr t) with
   | some v => acc.set (arr t) v
   | none => acc
 
+theorem initFromView_eq (a : Md) (other : View) (tuples : List (List Nat)) :
+    initFromView a other tuples = tuples.foldl (initStep other) a := rfl
+
 theorem initFromMdspan_eq (a other : Md) (tuples : List (List Nat)) :
-    initFromMdspan a other tuples = tuples.foldl (initStep other) a := rfl
+    initFromMdspan a other tuples = tuples.foldl (initStep other.toView) a := rfl
 
 /-- injectivity hypothesis used for the copy: offsets of valid indices of `m` that coincide belong to indices that
     agree below the rank -/
 def InjOn (m : Mapping) : Prop :=
   ∀ I J, Valid m.rank m.ext I → Valid m.rank m.ext J → m.offset I = m.offset J → ∀ k, k < m.rank → I k = J k
 
-theorem initStep_spec (m : Mapping) (hinj : InjOn m) (other : Md) (hrank : other.map.rank = m.rank)
+theorem initStep_spec (m : Mapping) (hinj : InjOn m) (other : View) (hrank : other.map.rank = m.rank)
     (acc : Md) (hmap : acc.map = m) (hlen : m.requiredSpan ≤ acc.data.length)
     (hrange : ∀ I, Valid m.rank m.ext I → m.offset I < m.requiredSpan)
     (t : List Nat) (ht : Valid m.rank m.ext (arr t)) (I : Arr) (hI : Valid m.rank m.ext I) :
@@ -1022,7 +1025,7 @@ theorem initStep_spec (m : Mapping) (hinj : InjOn m) (other : Md) (hrank : other
     ((∀ k, k < m.rank → arr t k = I k) → (∃ v, other.get? I = some v) → acc'.get? I = other.get? I) := by
   have hcongr : (∀ k, k < m.rank → arr t k = I k) → other.get? (arr t) = other.get? I := by
     intro h
-    simp only [Md.get?]
+    simp only [View.get?]
     rw [other.map.offset_congr (fun k hk => h k (by omega))]
   unfold initStep
   cases hv : other.get? (arr t) with
@@ -1051,7 +1054,7 @@ theorem initStep_spec (m : Mapping) (hinj : InjOn m) (other : Md) (hrank : other
       rw [hv] at this
       simpa [Md.get?] using this
 
-theorem initFold_spec (m : Mapping) (hinj : InjOn m) (other : Md) (hrank : other.map.rank = m.rank)
+theorem initFold_spec (m : Mapping) (hinj : InjOn m) (other : View) (hrank : other.map.rank = m.rank)
     (hrange : ∀ I, Valid m.rank m.ext I → m.offset I < m.requiredSpan)
     (I : Arr) (hI : Valid m.rank m.ext I) (hoI : ∃ v, other.get? I = some v) :
     ∀ (tuples : List (List Nat)) (acc : Md), acc.map = m → m.requiredSpan ≤ acc.data.length →
@@ -1224,25 +1227,25 @@ def SortedUnique (n : Nat) (E S : Arr) : Prop := ∃ p : List Nat, p.Perm (bigDi
 
 /-! ### mdarray from mdspan: the container keeps its size -/
 
-theorem initStep_length (other acc : Md) (t : List Nat) : (initStep other acc t).data.length = acc.data.length := by
+theorem initStep_length (other : View) (acc : Md) (t : List Nat) : (initStep other acc t).data.length = acc.data.length := by
   unfold initStep
   cases other.get? (arr t) with
   | none => rfl
   | some v => simp [Md.set]
 
-theorem initFold_length (other : Md) (tuples : List (List Nat)) (acc : Md) :
+theorem initFold_length (other : View) (tuples : List (List Nat)) (acc : Md) :
     (tuples.foldl (initStep other) acc).data.length = acc.data.length := by
   induction tuples generalizing acc with
   | nil => rfl
   | cons t ts ih => rw [List.foldl_cons, ih, initStep_length]
 
-theorem initStep_map (other acc : Md) (t : List Nat) : (initStep other acc t).map = acc.map := by
+theorem initStep_map (other : View) (acc : Md) (t : List Nat) : (initStep other acc t).map = acc.map := by
   unfold initStep
   cases other.get? (arr t) with
   | none => rfl
   | some v => simp [Md.set]
 
-theorem initFold_map (other : Md) (tuples : List (List Nat)) (acc : Md) :
+theorem initFold_map (other : View) (tuples : List (List Nat)) (acc : Md) :
     (tuples.foldl (initStep other) acc).map = acc.map := by
   induction tuples generalizing acc with
   | nil => rfl
@@ -1255,5 +1258,65 @@ theorem extent_default_dynamic (p : Pattern) (r : Nat) (hr : r < p.length) (h : 
   rw [extent_dynamic (Extents.dflt p) r hr h]
   simp only [Extents.dflt, List.getD_eq_getElem?_getD, List.getElem?_replicate]
   split <;> rfl
+
+/-! ### round three: number of index tuples, partial products -/
+
+theorem length_flatMap_const {α β : Type} (f : α → List β) (L : Nat) :
+    ∀ l : List α, (∀ a, a ∈ l → (f a).length = L) → (l.flatMap f).length = l.length * L := by
+  intro l
+  induction l with
+  | nil => intro _; simp
+  | cons a t ih =>
+    intro h
+    rw [List.flatMap_cons, List.length_append, ih (fun b hb => h b (List.mem_cons_of_mem _ hb)),
+      h a (List.mem_cons_self ..), List.length_cons, Nat.succ_mul, Nat.add_comm]
+
+/-- Π of a list of extents -/
+def prodList : List Nat → Nat
+  | [] => 1
+  | e :: es => e * prodList es
+
+/-- the index space of the extents `es` has `Π es` index tuples -/
+theorem allTuples_length : ∀ es : List Nat, (allTuples es).length = prodList es := by
+  intro es
+  induction es with
+  | nil => rfl
+  | cons e es ih =>
+    simp only [allTuples, prodList]
+    rw [length_flatMap_const _ (prodList es)]
+    · simp
+    · intro i _
+      rw [List.length_map, ih]
+
+theorem prodList_map_range' (E : Arr) : ∀ (n lo : Nat), prodList ((List.range' lo n).map E) = prodFrom E lo n := by
+  intro n
+  induction n with
+  | zero => intro lo; rfl
+  | succ n ih =>
+    intro lo
+    rw [List.range'_succ, List.map_cons, prodList, ih (lo + 1), prodFrom]
+
+theorem prodList_toList (n : Nat) (E : Arr) : prodList (toList n E) = prodFrom E 0 n := by
+  unfold toList
+  rw [List.range_eq_range', prodList_map_range']
+
+/-- number of index tuples = product of the extents -/
+theorem allTuples_toList_length (n : Nat) (E : Arr) : (allTuples (toList n E)).length = prodFrom E 0 n := by
+  rw [allTuples_length, prodList_toList]
+
+/-- partial products of positive extents only grow -/
+theorem prodFrom_le_add {E : Arr} (lo a b : Nat) (h : ∀ k, lo + a ≤ k → k < lo + a + b → 0 < E k) :
+    prodFrom E lo a ≤ prodFrom E lo (a + b) := by
+  rw [prodFrom_add]
+  exact Nat.le_mul_of_pos_right _ (prodFrom_pos h)
+
+/-- `Π_{k<i} E k · E i · Π_{i<k<n} E k = Π_{k<n} E k` -/
+theorem prodFrom_split (E : Arr) (n i : Nat) (hi : i < n) :
+    prodFrom E 0 n = prodFrom E 0 i * E i * prodFrom E (i + 1) (n - (i + 1)) := by
+  have e : n = i + (1 + (n - (i + 1))) := by omega
+  conv => lhs; rw [e]
+  rw [prodFrom_add, prodFrom_add, Nat.zero_add, Nat.mul_assoc]
+  congr 2
+  simp [prodFrom]
 
 end DV.C14
